@@ -19,7 +19,7 @@ from . import meshgen as G
 from . import d_util as U
 
 PROP = 'C18'
-LEAN_MODULES = ['Femio.Props.C18']
+LEAN_MODULES = ['Femio.Props.C18', 'Femio.Props.C18Pyr']
 THEOREMS = ['C18_pos_correct', 'C18_pyr_table', 'C18_poly_closed', 'C18_poly_own_nodes', 'C18_poly_outward_volume',
             'C18_poly_kernels', 'C18_degeneracy', 'C18_degeneracy_untouched', 'C18_positive', 'C18_permute_table', 'C18_pyr_counterexample']
 PARTIAL = [
@@ -161,9 +161,12 @@ def poly_correspond(ctx, m, obs, case, tally):
 
 def poly_case(ctx, m, tally):
     case = U.mesh_case(m, op='to_polyhedron')
-    obs = poly_real(m)
     ids = [i for i, _ in m['nodes']]
     key = ('poly', tuple(m['nodes']), tuple((t, tuple((e, tuple(c)) for e, c in b)) for t, b in m['blocks'].items()))
+    U.stage('to_polyhedron() / calculate_element_volumes()')
+    obs = U.guarded(ctx, case, key, poly_real, m)
+    if obs is None:
+        return
     ctx.case(key, sample={**G.describe(m), 'op': 'to_polyhedron'}, nontrivial=ids != sorted(ids))
     ctx.count('poly:kind:' + m['kind'])
     ctx.count('poly:order:' + m['order'])
@@ -311,8 +314,11 @@ def degen_correspond(ctx, m, obs, case):
 
 def degen_case(ctx, m, pats, stream='main'):
     case = U.mesh_case(m, op='resolve_degeneracy', patterns={str(k): v for k, v in pats.items()})
-    obs = degen_real(m)
     key = ('degen', tuple(m['nodes']), tuple((t, tuple((e, tuple(c)) for e, c in b)) for t, b in m['blocks'].items()))
+    U.stage('resolve_degeneracy() / calculate_element_volumes()')
+    obs = U.guarded(ctx, case, key, degen_real, m)
+    if obs is None:
+        return
     ctx.case(key, sample={**G.describe(m), 'op': 'resolve_degeneracy', 'degenerate': len(pats)}, nontrivial=bool(pats))
     for p in pats.values():
         ctx.count('degen:pattern:' + p)
@@ -402,8 +408,11 @@ def positive_correspond(ctx, m, obs, case):
 
 def positive_case(ctx, m, subset, label):
     case = U.mesh_case(m, op='make_elements_positive', inverted=sorted(subset))
-    obs = positive_real(m)
     key = ('pos', tuple(m['nodes']), tuple((e, tuple(c)) for e, c in m['blocks']['tet']))
+    U.stage('make_elements_positive() / calculate_element_volumes()')
+    obs = U.guarded(ctx, case, key, positive_real, m)
+    if obs is None:
+        return
     ctx.case(key, sample={**G.describe(m), 'op': 'make_elements_positive', 'inverted': len(subset)}, nontrivial=bool(subset))
     ctx.count('positive:' + label)
     ctx.count('positive:order:' + m['order'])
@@ -430,7 +439,7 @@ def run(ctx):
     # (a) to_polyhedron
     kinds = ['tet', 'hex', 'prism', 'pyr', 'mixed']
     orders = ['asc', 'desc', 'shuf']
-    for k in range(ctx.n(60, 400) * boost):
+    for k in range(ctx.n(60, 1200) * boost):
         m = G.gen_geometric(rnd, kind=kinds[k % 5], max_cells=2 if ctx.quick else 3, order=orders[(k // 5) % 3],
                             id_style=rnd.choice(['dense', 'sparse', 'large', 'prefix']))
         poly_case(ctx, m, tally)
@@ -444,7 +453,7 @@ def run(ctx):
             m = G.gen_geometric(rnd, kind='hex', max_cells=1, voids=False, order=order)
             m2, pats = collapse(ctx, m, force=name)
             degen_case(ctx, m2, pats)
-    for k in range(ctx.n(40, 300) * boost):
+    for k in range(ctx.n(40, 800) * boost):
         m = G.gen_geometric(rnd, kind=['hex', 'mixed', 'hex', 'prism', 'tet'][k % 5], max_cells=2 if ctx.quick else 3)
         m2, pats = collapse(ctx, m, p_deg=rnd.choice([.2, .5, 1.0]))
         degen_case(ctx, m2, pats)
@@ -461,7 +470,7 @@ def run(ctx):
         for r in range(n + 1):
             for subset in itertools.combinations(range(n), r):
                 positive_case(ctx, invert(m, set(subset), how), subset, 'exhaustive-6-tets')
-    for k in range(ctx.n(30, 250) * boost):
+    for k in range(ctx.n(30, 700) * boost):
         m = G.gen_geometric(rnd, kind='tet', max_cells=2 if ctx.quick else 3)
         n = len(m['blocks']['tet'])
         subset = {i for i in range(n) if rnd.random() < rnd.choice([.1, .5, .9])}
